@@ -10,11 +10,11 @@ from .. import core, harness, sched
 ID = "C20"
 LEVEL = "model_checking"
 
-SERIAL = ["c1", "c2", "c3", "c22", "c6", "c3x1", "c2x2", "x1", "x3", "x22", "x6", "x3x1", "x2x2"]
+SERIAL = ["c1", "c2", "c3", "c22", "c6", "c3x1", "c2x2", "c3z", "c2x2z", "c3p", "x1", "x3", "x22", "x6", "x3x1", "x2x2", "x3p", "x2x2p"]
 POOLED = {
-    "quick": [("c3", 2, "line", 1), ("x3", 2, "line", 1), ("c22", 3, "line", 0), ("x22", 2, "line", 0), ("c3", 1, "line", 0)],
+    "quick": [("c3", 2, "line", 1), ("x3", 2, "line", 1), ("c22", 3, "line", 0), ("x22", 2, "line", 0), ("c3", 1, "line", 0), ("c3z", 2, "line", 0), ("x3p", 2, "line", 0)],
     "thorough": [("c3", 2, "line", 1), ("x3", 2, "line", 1), ("c3", 3, "line", 1), ("x3", 3, "line", 1), ("c22", 2, "line", 1), ("x22", 2, "line", 1),
-                 ("c2x2", 3, "line", 1), ("x2x2", 2, "line", 1), ("c3", 2, "instruction", 1), ("x3", 2, "instruction", 1), ("c3", 2, "line", 2), ("c3", 1, "line", 0), ("x3", 16, "line", 1)],
+                 ("c2x2", 3, "line", 1), ("x2x2", 2, "line", 1), ("c3", 2, "instruction", 1), ("x3", 2, "instruction", 1), ("c3", 2, "line", 2), ("c3", 1, "line", 0), ("x3", 16, "line", 1), ("c3z", 2, "line", 1), ("c2x2z", 2, "line", 1), ("x3p", 2, "line", 1), ("c3p", 3, "line", 1)],
 }
 
 
